@@ -68,6 +68,7 @@ modes = ("eager",) if tier == "quick" else ("eager", "jit")
 shapes = {"w": (8, 6), "b": (6,)}
 
 for name, mk in MAKERS.items():
+  jax.clear_caches()
   rng = np.random.RandomState(seed + 17)
   params = {k: jnp.asarray(rng.randn(*s), jnp.float32) for k, s in shapes.items()}
   grads = [{k: jnp.asarray(rng.randn(*s), jnp.float32) for k, s in shapes.items()} for _ in range(T_)]
